@@ -61,10 +61,26 @@ def run(ctx):
     for size in (0, 4, hsize - 1, hsize, hsize + 12):
         for magic_ok in (0, 1):
             for ver in (good_ver - 1, good_ver, good_ver + 1):
-                ex = absint.Explorer(prog, effects=eff, summaries={
-                    "memcmp": lambda ex_, st, args, f, e, m=magic_ok: [(INT(0 if m else 1), {})]})
+                # the four magic bytes are concrete in the abstract store, so the test may be written with memcmp
+                # or byte by byte
+                def s_memcmp(ex_, st, args, f, e):
+                    def sv(x):
+                        if x[0] == "str":
+                            return x[1]
+                        if x[0] == "ptr":
+                            path = x[2][:-1] if x[2] and x[2][-1] == 0 else x[2]
+                            v = st.store.get((x[1], path))
+                            return v[1] if v and v[0] == "str" else None
+                        return None
+                    a_, b_ = sv(args[0]), sv(args[1])
+                    if a_ is None or b_ is None or args[2][0] != "int":
+                        return None
+                    k_ = args[2][1]
+                    return [(INT(0 if a_[:k_] == b_[:k_] else 1), {})]
+                ex = absint.Explorer(prog, effects=eff, loop_bound=8, summaries={"memcmp": s_memcmp})
                 store = {("ST", F("stream", "size")): INT(size), ("ST", F("stream", "buf")): PTR("BUF", (0,)),
-                         ("BUF", (0,) + F("ovni_stream_header", "version")): INT(ver)}
+                         ("BUF", (0,) + F("ovni_stream_header", "version")): INT(ver),
+                         ("BUF", (0,) + F("ovni_stream_header", "magic")): ("str", "ovni" if magic_ok else "ovnj")}
                 outs = ex.run(csh, [PTR("ST")], store)
                 acc = [o for o in outs if o.kind == "ret" and o.ret == INT(0)]
                 rej = [o for o in outs if o.kind == "ret" and o.ret != INT(0)]
